@@ -629,8 +629,13 @@ pub fn judge_bytes(bytes: &[u8], target: u8, obs: &mut Obs) -> Result<(), Failur
         4 => judge_stable(bc!(StableGraph<W, W, Undirected, u8>), &what, obs),
         _ => match bc!(GraphMap<i32, i32, Directed>) {
             Err(p) => fail("C17/deserialize-panics", format!("{what}: deserializing a GraphMap panicked: {p}")),
-            Ok(Err(_)) => Ok(()),
+            Ok(Err(_)) => {
+                obs.label("rejected (GraphMap)");
+                Ok(())
+            }
             Ok(Ok(g)) => {
+                obs.label("accepted (GraphMap)");
+                obs.nontrivial = true;
                 // internal consistency of an accepted GraphMap
                 let r = guarded(|| {
                     let mut cnt = 0;
@@ -681,8 +686,116 @@ pub struct RawCase {
     pub bytes: Vec<u8>,
 }
 
+/// Assemble a bincode stream field by field from a tape of small numbers: plausible lengths,
+/// option tags, indices and edge-property tags (so most streams get past the framing and exercise
+/// the index / vacancy validation), followed by an optional truncation or trailing garbage.
+fn assemble(target: u8, tape: &[u8]) -> Vec<u8> {
+    let mut pos = 0usize;
+    let mut pull = || {
+        let b = tape.get(pos).copied().unwrap_or(0);
+        pos += 1;
+        b
+    };
+    let t = target % 6;
+    let ix1 = matches!(t, 0 | 1 | 4);
+    let directed = matches!(t, 0 | 1 | 2 | 5);
+    let mut out: Vec<u8> = Vec::new();
+    let put_ix = |out: &mut Vec<u8>, v: u8| {
+        if ix1 {
+            out.push(v)
+        } else {
+            out.extend_from_slice(&(if v >= 250 { u32::MAX - (255 - v) as u32 } else { v as u32 }).to_le_bytes())
+        }
+    };
+    let small_ix = |b: u8| if b >= 240 { b } else { b % 7 };
+    let nn = pull() % 6;
+    out.extend_from_slice(&(nn as u64).to_le_bytes());
+    for _ in 0..nn {
+        if t == 5 {
+            out.extend_from_slice(&((pull() % 4) as i32).to_le_bytes());
+        } else {
+            out.extend_from_slice(&((pull() % 4) as u32).to_le_bytes());
+            out.extend_from_slice(&((pull() % 4) as u32).to_le_bytes());
+        }
+    }
+    let nh = match pull() % 8 {
+        0..=3 => 0,
+        4 | 5 => 1,
+        6 => 2,
+        _ => 3,
+    };
+    out.extend_from_slice(&(nh as u64).to_le_bytes());
+    for _ in 0..nh {
+        let v = small_ix(pull());
+        if t == 5 {
+            out.extend_from_slice(&(v as u32).to_le_bytes())
+        } else {
+            put_ix(&mut out, v)
+        }
+    }
+    let ep = match pull() % 8 {
+        0..=5 => directed as u32,
+        6 => !directed as u32,
+        _ => 2,
+    };
+    out.extend_from_slice(&ep.to_le_bytes());
+    let ne = pull() % 7;
+    out.extend_from_slice(&(ne as u64).to_le_bytes());
+    for _ in 0..ne {
+        let tag = match pull() % 16 {
+            0..=2 => 0u8,
+            15 => 2,
+            _ => 1,
+        };
+        out.push(tag);
+        if tag == 1 {
+            let (x, y) = (small_ix(pull()), small_ix(pull()));
+            if t == 5 {
+                out.extend_from_slice(&(x as u32).to_le_bytes());
+                out.extend_from_slice(&(y as u32).to_le_bytes());
+                out.extend_from_slice(&((pull() % 4) as i32).to_le_bytes());
+            } else {
+                put_ix(&mut out, x);
+                put_ix(&mut out, y);
+                out.extend_from_slice(&((pull() % 4) as u32).to_le_bytes());
+                out.extend_from_slice(&((pull() % 4) as u32).to_le_bytes());
+            }
+        }
+    }
+    match pull() % 10 {
+        0 => {
+            let cut = pull() as usize % (out.len() + 1);
+            out.truncate(cut);
+        }
+        1 => {
+            for _ in 0..pull() % 9 {
+                out.push(pull());
+            }
+        }
+        2 => {
+            // one byte overwritten
+            if !out.is_empty() {
+                let at = pull() as usize * out.len() >> 8;
+                out[at] = pull();
+            }
+        }
+        _ => {}
+    }
+    out
+}
+
 pub fn raw_strategy(_tier: Tier) -> BoxedStrategy<RawCase> {
-    (any::<u8>(), proptest::collection::vec(any::<u8>(), 0..96)).prop_map(|(target, bytes)| RawCase { target, bytes }).boxed()
+    // three quarters assembled from a tape, the rest plain bytes biased to small values
+    (any::<u8>(), 0u8..4, proptest::collection::vec((any::<u8>(), any::<u8>()), 0..120))
+        .prop_map(|(target, mode, raw)| {
+            let bytes: Vec<u8> = if mode > 0 {
+                assemble(target, &raw.iter().map(|p| p.1).collect::<Vec<u8>>())
+            } else {
+                raw.into_iter().map(|(sel, v)| if sel < 150 { 0 } else if sel < 235 { v % 4 } else { v }).collect()
+            };
+            RawCase { target, bytes }
+        })
+        .boxed()
 }
 
 pub fn raw_run(c: &RawCase) -> Outcome {
